@@ -2,7 +2,8 @@ package server
 
 // BOUNDED stand-in for property C12 (not a proof): exhaustive enumeration of every legal sequence of group
 // operations up to a stated depth, on the REAL consumerGroup code, over a fixed small universe
-// (members a,b,c; streams s1 with 2 partitions, s2 with 3 partitions; every non-empty subscription set).
+// (members a,b,c; streams s1 with 2 partitions, s2 with 3 partitions; every non-empty subscription set, and a join
+// naming a stream twice).
 // After every operation the property's sentences are checked directly on the group's state, and three replicas
 // that apply the same sequence are compared (Go randomises map iteration, so an order dependence shows up).
 
@@ -83,6 +84,10 @@ func (w *lbvcGroupWorld) legalOps() []lbvcGroupOp {
 			for _, ss := range subsets {
 				ops = append(ops, lbvcGroupOp{kind: "join", member: m, streams: ss})
 			}
+			// a join request may name a stream more than once: it is one subscription
+			if len(live) > 0 {
+				ops = append(ops, lbvcGroupOp{kind: "join", member: m, streams: append(append([]string{}, live...), live[0])})
+			}
 		}
 	}
 	for _, s := range live {
@@ -109,7 +114,17 @@ func (w *lbvcGroupWorld) apply(op lbvcGroupOp) error {
 	}
 	switch op.kind {
 	case "join":
-		w.members[op.member] = append([]string{}, op.streams...)
+		var set []string
+		for _, s := range op.streams {
+			dup := false
+			for _, x := range set {
+				dup = dup || x == s
+			}
+			if !dup {
+				set = append(set, s)
+			}
+		}
+		w.members[op.member] = set
 	case "leave":
 		delete(w.members, op.member)
 	case "delete":
